@@ -17,6 +17,14 @@
 (*   view/pending/committed  the data the session must see: committed modifications followed by the session's  *)
 (*                         own (possibly unflushed) modifications                                              *)
 (*                                                                                                             *)
+(* A query may be a *chain*: a base query followed by lambda steps (.filter / .where / .order_by, see          *)
+(* PonyCacheQueries).  An execution then passes SrcGet .. TcSet once per step (variable stp): Query.__init__   *)
+(* for the base, Query._process_lambda for every chained step - each decompiles its code object, looks its     *)
+(* extractors up, and calls Query._get_translator with the key of the chain *up to that step*; a chained       *)
+(* translator that is not cached is made from the translator in hand (the one of the previous step) by         *)
+(* apply_lambda, a deep copy that keeps what the previous steps baked in.  Only the last step's translator     *)
+(* reaches ScGet.  The prefixes of a chain are queries of their own and share their cache entries with it.     *)
+(*                                                                                                             *)
 (* One action per access of a shared dictionary (that is where the real code can be pre-empted and where the   *)
 (* harness parks the real threads): Query._get_translator is SrcGet/SrcSet, ExtGet/ExtSet (the caches consulted*)
 (* before it), TcGet (lookup + comparison of fixed_param_values), TcDel (`del cache[key]`), TcSet (translation *)
@@ -30,13 +38,13 @@
 (* ForeignUseRaises.  The switches DelPop / AggrFlushFirst / AdaptKeyOriginal select between what the code     *)
 (* does today ("asis": FALSE) and the repaired behaviour ("fixed": TRUE).  TLC refutes the invariants on the   *)
 (* asis model (the counterexamples are the known findings) and proves them on the fixed model.  KeyHasTypes,   *)
-(* CompareFixed, SqlKeyHasFixed, FlushClearsResults are TRUE in both; setting one to FALSE is a seeded design  *)
-(* error that TLC must refute (sanity of the invariants).                                                      *)
+(* CompareFixed, CompareEarlier, SqlKeyHasFixed, FlushClearsResults are TRUE in both; setting one to FALSE is  *)
+(* a seeded design error that TLC must refute (sanity of the invariants).                                      *)
 (* `Answer` is uninterpreted: an answer is the term [tr, arg, data] - which translation produced the SQL, with *)
 (* which argument, on which data.  A translation is a function of (query id, parameter type, the parameter     *)
-(* value iff the query bakes it in): Tr(q, p).                                                                 *)
+(* value iff the query - one of the steps of the chain - bakes it in): Tr(q, p).                               *)
 (***************************************************************************************************************)
-EXTENDS Naturals, Sequences, FiniteSets, TLC, Json
+EXTENDS PonyCacheQueries, Json
 
 CONSTANTS
     NThreads,           \* threads 1 .. NThreads, each with its own db_session
@@ -53,6 +61,8 @@ CONSTANTS
     AggrFlushFirst,     \* FALSE (as is): Query._aggregate consults query_results before flushing;  TRUE (fixed)
     AdaptKeyOriginal,   \* FALSE (as is): adapt_sql stores under the %-doubled text;  TRUE (fixed): under the original
     KeyHasTypes, CompareFixed, SqlKeyHasFixed, FlushClearsResults,   \* TRUE in the code; FALSE = seeded design error
+    CompareEarlier,     \* TRUE in the code: the values a cached translator inherited from earlier steps of the chain are
+                        \* compared as well;  FALSE = seeded design error: only the values its own step baked in
     Export              \* TRUE: terminal states are printed as JSON (behaviours for the harness to replay)
 
 VARIABLES
@@ -63,12 +73,13 @@ VARIABLES
     committed,          \* database: sequence of committed modifications
     view, pending, results,                 \* per thread: the session's data view, unflushed changes?, query_results
     pc, ip, src, tr, err,                   \* per thread: next step, index into prog, tree in use, translator in use, spurious error
+    stp,                \* per thread: the step of the chain being prepared (1: the base query)
     obs,                \* per thread: sequence of [op, req, got] - required and modelled outcome of every finished operation
     sched               \* global order of the shared accesses: sequence of [t, c, o]
 
-vars == <<prog, warm, style, memo, tcache, sqlcache, adaptcache, committed, view, pending, results, pc, ip, src, tr, err, obs, sched>>
+vars == <<prog, warm, style, memo, tcache, sqlcache, adaptcache, committed, view, pending, results, pc, ip, src, tr, err, stp, obs, sched>>
 \* the invariants do not depend on the order recorded in sched: hidden in the checking runs, part of the state in export runs
-CheckView == <<prog, warm, style, memo, tcache, sqlcache, adaptcache, committed, view, pending, results, pc, ip, src, tr, err, obs>>
+CheckView == <<prog, warm, style, memo, tcache, sqlcache, adaptcache, committed, view, pending, results, pc, ip, src, tr, err, stp, obs>>
 
 Threads == 1 .. NThreads
 
@@ -78,25 +89,7 @@ Int(v) == [t |-> "int", v |-> v]
 Str(v) == [t |-> "str", v |-> v]
 NoneV  == [t |-> "none", v |-> "None"]
 
-OrmQueries == {"slice", "getattr", "cmp", "gt", "count", "strq", "m2m", "mcount", "maxdate", "sumdec", "dyn"}
-RawQueries == {"raw_where", "raw_pct", "raw_pct2"}
-(*  slice     select(x.name[:n] for x in T)               n baked into the translation
-    getattr   select(getattr(x, a) for x in T)            a baked into the translation
-    cmp       select(x.name for x in T if x.n == p)       p: int | None  (= ? versus IS NULL: depends on the type only)
-    gt        select(x.name for x in T if x.n > p)
-    count     select(x for x in T if x.n > p).count()     aggregate: answered through Query._aggregate
-    strq      select("x.name for x in T if x.n > p")      query given as a string
-    m2m       select(x.name for x in T for g in x.groups if g.id >= p)          depends on a many-to-many link table
-    mcount    select(x for x in T for g in x.groups if g.id >= p).count()       aggregate over the link table
-    maxdate   select(x.d for x in T if x.n >= p).max()    aggregate whose value is converted (date)
-    sumdec    select(x.amount for x in T if x.n >= p).sum()                     aggregate whose value is converted (Decimal)
-    dyn       T.select(<lambda compiled at run time from a text that contains the value p>)   a new, short-lived code
-              object per execution: the value is part of the code, i.e. baked in
-    raw_where db.select("name from T where n > $p")
-    raw_pct   db.execute("select 7 % 4, $p")              raw_pct2: "select 7 %% 4, $p"  (= raw_pct with % doubled)   *)
-Baked(q)     == q \in {"slice", "getattr", "dyn"}
-Aggregate(q) == q \in {"count", "mcount", "maxdate", "sumdec"}
-SrcCache(q)  == IF q = "strq" THEN "s2a" ELSE "ast"
+\* query identifiers, chains, Baked, Aggregate, SrcCache: see PonyCacheQueries
 Doubled(s)   == IF s = "raw_pct" THEN "raw_pct2" ELSE IF s = "raw_pct2" THEN "raw_pct4" ELSE s
 
 NoExec == <<"none", NoneV>>
@@ -119,11 +112,17 @@ FamQA == {<<"count", Int("0")>>, <<"sumdec", Int("0")>>, <<"gt", Int("0")>>}
 FamQM == {<<"m2m", Int("1")>>, <<"mcount", Int("1")>>, <<"maxdate", Int("0")>>}
 FamQD == {<<"dyn", Int("0")>>, <<"dyn", Int("1")>>}
 FamQS == {<<"strq", Int("0")>>, <<"strq", Int("1")>>, <<"raw_where", Int("1")>>}
+\* chains (quick tier: three small alphabets; thorough: FamChain as well)
+FamQC == {<<"slice.f", Int("1")>>, <<"slice.f", Int("2")>>, <<"slice", Int("2")>>, <<"getattr.o", Str("name")>>, <<"getattr.o", Str("tag")>>}
+FamQK == {<<"idx.w", Int("0")>>, <<"idx.w", Int("1")>>, <<"gt.fs.o", Int("0")>>, <<"gt.fs.o", Int("1")>>, <<"gt.fs", Int("1")>>}
+FamQW == {<<"slice.f.o", Int("1")>>, <<"slice.f.o", Int("2")>>, <<"slice.wp", Int("1")>>, <<"slice.wp", Int("2")>>, <<"slice.f", Int("2")>>}
+FamChain == FamQC \cup FamQK \cup FamQW \cup {<<"slice.f", NoneV>>, <<"gt", Int("1")>>, <<"idx", Int("1")>>}
 FamQR == {<<"raw_pct", Int("1")>>, <<"raw_pct2", Int("1")>>, <<"raw_where", Int("1")>>, <<"raw_where", NoneV>>}
 
 ExecsOf(f) == CASE f = "QM" -> FamQM [] f = "QD" -> FamQD [] f = "M2M" -> FamM2M [] f = "Dyn" -> FamDyn [] f = "QB" -> FamQB [] f = "QT" -> FamQT [] f = "QA" -> FamQA [] f = "QS" -> FamQS [] f = "QR" -> FamQR
                 []  f = "Slice2" -> FamSlice2 [] f = "Slice3" -> FamSlice3 [] f = "Baked" -> FamBaked [] f = "Types" -> FamTypes
                 [] f = "Aggr" -> FamAggr [] f = "Str" -> FamStr [] f = "Raw" -> FamRaw [] f = "MixT" -> FamMixT
+                [] f = "QC" -> FamQC [] f = "QK" -> FamQK [] f = "QW" -> FamQW [] f = "Chain" -> FamChain
 Execs == UNION {ExecsOf(f) : f \in Fams}
 
 WarmCold   == {NoExec}
@@ -166,10 +165,18 @@ MockProg(s) == \A i \in DOMAIN s : s[i].op = "exec" /\ s[i].q \in RawQueries
 (* Translations, keys, answers *)
 NoTr == [q |-> "none", types |-> "-", fixed |-> "-"]
 FixedOf(q, p) == IF Baked(q) THEN p.v ELSE "-"
-Tr(q, p) == [q |-> q, types |-> p.t, fixed |-> FixedOf(q, p)]          \* what translating q for parameter p yields
+TypesOf(q, p) == IF TakesParam(q) THEN p.t ELSE "-"
+Tr(q, p) == [q |-> q, types |-> TypesOf(q, p), fixed |-> FixedOf(q, p)]    \* what translating q for parameter p yields
+(* What the step of query s yields when made from the tree c (of the code object in hand) and the translator `prev` of
+   the previous step: a base query is translated from its generator; a chained step copies `prev` (with whatever value
+   it carries) and applies the lambda, which may bake the parameter in itself. *)
+TrStep(s, c, prev, p) ==
+    IF c # Code(s) THEN [q |-> c, types |-> TypesOf(s, p), fixed |-> "-"]              \* the tree of another code object
+    ELSE [q |-> s, types |-> TypesOf(s, p),
+          fixed |-> IF StepBakes(s) THEN p.v ELSE IF Parent(s) = "none" THEN "-" ELSE prev.fixed]
 Adapted(s) == [q |-> s, types |-> "-", fixed |-> "-"]                   \* what adapting raw statement s yields
 
-TKey(q, p)   == <<q, IF KeyHasTypes THEN p.t ELSE "*">>                 \* Query._key: code key + vartypes
+TKey(q, p)   == <<q, IF KeyHasTypes THEN TypesOf(q, p) ELSE "*">>       \* Query._key: code keys of the steps + vartypes
 SqlKey(k, x) == <<k, x.types, IF SqlKeyHasFixed THEN x.fixed ELSE "*">> \* sql_key
 AdKey(s)     == <<s, style>>
 AdStoreKey(s) == IF AdaptKeyOriginal \/ style \notin {"format", "pyformat"} THEN AdKey(s) ELSE AdKey(Doubled(s))
@@ -191,14 +198,22 @@ StartPc(o) == IF o.op = "sess" THEN "sess"
               ELSE IF o.q \in RawQueries THEN "adget"
               ELSE IF MemoSteps THEN "srcget" ELSE "tcget"
 PcAt(t, i) == IF i > Len(prog[t]) THEN "done" ELSE StartPc(prog[t][i])
-Src(t) == IF MemoSteps THEN src[t] ELSE Cur(t).q
+StepQ(t) == Prefixes(Cur(t).q)[stp[t]]        \* the query (prefix of the chain) whose translator is being obtained
+StepStart == IF MemoSteps THEN "srcget" ELSE "tcget"
+Src(t) == IF MemoSteps THEN src[t] ELSE Code(StepQ(t))
+(* the step's translator is in hand: on to the next step of the chain, or to the SQL of the whole chain *)
+NextStep(t) == IF stp[t] < Steps(Cur(t).q)
+               THEN stp' = [stp EXCEPT ![t] = @ + 1] /\ pc' = [pc EXCEPT ![t] = StepStart]
+               ELSE UNCHANGED stp /\ pc' = [pc EXCEPT ![t] = "scget"]
 
-(* caches after one solo execution of e *)
+(* caches after one solo execution of e (warm-ups are single-step queries) *)
 WarmT(e) == IF e = NoExec \/ e[1] \in RawQueries THEN Empty ELSE (TKey(e[1], e[2]) :> Tr(e[1], e[2]))
 WarmS(e) == IF e = NoExec \/ e[1] \in RawQueries THEN Empty
             ELSE (SqlKey(TKey(e[1], e[2]), Tr(e[1], e[2])) :> Tr(e[1], e[2]))
 WarmM(e) == [c \in {"ast", "s2a", "ext"} |->
                IF e = NoExec \/ e[1] \in RawQueries \/ (c # "ext" /\ c # SrcCache(e[1])) THEN Empty ELSE (e[1] :> e[1])]
+
+ASSUME \A e \in WarmSet : e = NoExec \/ e[1] \notin ChainQueries
 
 Init ==
     /\ prog \in [Threads -> Programs]
@@ -214,6 +229,7 @@ Init ==
     /\ src = [t \in Threads |-> "none"]
     /\ tr = [t \in Threads |-> NoTr]
     /\ err = [t \in Threads |-> "none"]
+    /\ stp = [t \in Threads |-> 1]
     /\ obs = [t \in Threads |-> <<>>]
     /\ sched = <<>>
 
@@ -225,12 +241,14 @@ Done(t, req, got) ==
     /\ obs' = [obs EXCEPT ![t] = Append(@, [op |-> Cur(t), req |-> req, got |-> got])]
     /\ ip' = [ip EXCEPT ![t] = @ + 1]
     /\ pc' = [pc EXCEPT ![t] = PcAt(t, ip[t] + 1)]
+    /\ stp' = [stp EXCEPT ![t] = 1]
 
 (* an exception ends the thread's program *)
 Dies(t, req, got) ==
     /\ obs' = [obs EXCEPT ![t] = Append(@, [op |-> Cur(t), req |-> req, got |-> got])]
     /\ ip' = [ip EXCEPT ![t] = Len(prog[t]) + 1]
     /\ pc' = [pc EXCEPT ![t] = "done"]
+    /\ stp' = [stp EXCEPT ![t] = 1]
 
 Flushed(r, pend) == IF pend /\ FlushClearsResults THEN Empty ELSE r
 
@@ -257,77 +275,84 @@ ExecRaw(t, a) ==
     /\ Done(t, Cold(o.q, o.p, view[t]), Ans(a, o.p, view[t]))
 
 -----------------------------------------------------------------------------
-(* decompile / string2ast: ast_cache.get(key) resp. string2ast_cache.get(s) *)
+(* decompile / string2ast: ast_cache.get(key) resp. string2ast_cache.get(s), for the code object of the step
+   (select(): the generator; .filter/.where/.order_by: the lambda) *)
 SrcGet(t) ==
     /\ pc[t] = "srcget"
-    /\ LET q == Cur(t).q  c == SrcCache(q) IN
+    /\ LET q == Code(StepQ(t))  c == SrcCache(q) IN
        /\ Mark(t, c, "get")
        /\ IF q \in DOMAIN memo[c]
           THEN src' = [src EXCEPT ![t] = memo[c][q]] /\ Goto(t, "extget")
           ELSE UNCHANGED src /\ Goto(t, "srcset")
-    /\ UNCHANGED <<prog, warm, style, memo, tcache, sqlcache, adaptcache, committed, view, pending, results, ip, tr, err, obs>>
+    /\ UNCHANGED <<prog, warm, style, memo, tcache, sqlcache, adaptcache, committed, view, pending, results, ip, tr, err, stp, obs>>
 
 SrcSet(t) ==
     /\ pc[t] = "srcset"
-    /\ LET q == Cur(t).q  c == SrcCache(q) IN
+    /\ LET q == Code(StepQ(t))  c == SrcCache(q) IN
        /\ Mark(t, c, "set")
        /\ memo' = [memo EXCEPT ![c] = Put(@, q, q)]
        /\ src' = [src EXCEPT ![t] = q]
     /\ Goto(t, "extget")
-    /\ UNCHANGED <<prog, warm, style, tcache, sqlcache, adaptcache, committed, view, pending, results, ip, tr, err, obs>>
+    /\ UNCHANGED <<prog, warm, style, tcache, sqlcache, adaptcache, committed, view, pending, results, ip, tr, err, stp, obs>>
 
 (* create_extractors: extractors_cache.get(code_key); a hit replaces the tree by the cached one *)
 ExtGet(t) ==
     /\ pc[t] = "extget"
     /\ Mark(t, "ext", "get")
-    /\ LET q == Cur(t).q IN
+    /\ LET q == Code(StepQ(t)) IN
        IF q \in DOMAIN memo["ext"]
        THEN src' = [src EXCEPT ![t] = memo["ext"][q]] /\ Goto(t, "tcget")
        ELSE UNCHANGED src /\ Goto(t, "extset")
-    /\ UNCHANGED <<prog, warm, style, memo, tcache, sqlcache, adaptcache, committed, view, pending, results, ip, tr, err, obs>>
+    /\ UNCHANGED <<prog, warm, style, memo, tcache, sqlcache, adaptcache, committed, view, pending, results, ip, tr, err, stp, obs>>
 
 ExtSet(t) ==
     /\ pc[t] = "extset"
     /\ Mark(t, "ext", "set")
-    /\ memo' = [memo EXCEPT !["ext"] = Put(@, Cur(t).q, src[t])]
+    /\ memo' = [memo EXCEPT !["ext"] = Put(@, Code(StepQ(t)), src[t])]
     /\ Goto(t, "tcget")
-    /\ UNCHANGED <<prog, warm, style, tcache, sqlcache, adaptcache, committed, view, pending, results, ip, src, tr, err, obs>>
+    /\ UNCHANGED <<prog, warm, style, tcache, sqlcache, adaptcache, committed, view, pending, results, ip, src, tr, err, stp, obs>>
 
-(* Query._get_translator: translator = cache.get(key); compare translator.fixed_param_values with the own values *)
+(* Query._get_translator, called with the key of the chain up to the current step: translator = cache.get(key);
+   compare translator.fixed_param_values - the values baked in by its own step and those it inherited from the earlier
+   steps of the chain - with the current values *)
+Rejected(x, p) == /\ CompareFixed
+                  /\ x.fixed # FixedOf(x.q, p)
+                  /\ CompareEarlier \/ StepBakes(x.q)
 TcGet(t) ==
     /\ pc[t] = "tcget"
     /\ Mark(t, "tc", "get")
-    /\ LET o == Cur(t)  k == TKey(o.q, o.p) IN
+    /\ LET o == Cur(t)  k == TKey(StepQ(t), o.p) IN
        IF k \notin DOMAIN tcache
-       THEN UNCHANGED tr /\ Goto(t, "tcset")
+       THEN UNCHANGED <<tr, stp>> /\ Goto(t, "tcset")
        ELSE LET x == tcache[k] IN
-            IF CompareFixed /\ x.fixed # FixedOf(x.q, o.p)
-            THEN UNCHANGED tr /\ Goto(t, "tcdel")
-            ELSE tr' = [tr EXCEPT ![t] = x] /\ Goto(t, "scget")
+            IF Rejected(x, o.p)
+            THEN UNCHANGED <<tr, stp>> /\ Goto(t, "tcdel")
+            ELSE tr' = [tr EXCEPT ![t] = x] /\ NextStep(t)
     /\ UNCHANGED <<prog, warm, style, memo, tcache, sqlcache, adaptcache, committed, view, pending, results, ip, src, err, obs>>
 
 (* del database._translator_cache[query_key]  -- the key may be gone by now *)
 TcDel(t) ==
     /\ pc[t] = "tcdel"
     /\ Mark(t, "tc", "del")
-    /\ LET o == Cur(t)  k == TKey(o.q, o.p) IN
+    /\ LET o == Cur(t)  k == TKey(StepQ(t), o.p) IN
        IF k \in DOMAIN tcache \/ DelPop
        THEN /\ tcache' = Drop(tcache, k)
             /\ Goto(t, "tcset")
-            /\ UNCHANGED <<err, obs, ip>>
+            /\ UNCHANGED <<err, obs, ip, stp>>
        ELSE /\ UNCHANGED tcache
             /\ err' = [err EXCEPT ![t] = "KeyError"]
             /\ Dies(t, Cold(o.q, o.p, view[t]), ErrR("KeyError"))
     /\ UNCHANGED <<prog, warm, style, memo, sqlcache, adaptcache, committed, view, pending, results, src, tr>>
 
-(* translate (thread-local), then database._translator_cache[key] = translator *)
+(* translate (thread-local: the generator, or the lambda on a copy of the translator in hand), then
+   database._translator_cache[key] = translator *)
 TcSet(t) ==
     /\ pc[t] = "tcset"
     /\ Mark(t, "tc", "set")
-    /\ LET o == Cur(t)  x == Tr(Src(t), o.p) IN
-       /\ tcache' = Put(tcache, TKey(o.q, o.p), x)
+    /\ LET o == Cur(t)  x == TrStep(StepQ(t), Src(t), tr[t], o.p) IN
+       /\ tcache' = Put(tcache, TKey(StepQ(t), o.p), x)
        /\ tr' = [tr EXCEPT ![t] = x]
-    /\ Goto(t, "scget")
+    /\ NextStep(t)
     /\ UNCHANGED <<prog, warm, style, memo, sqlcache, adaptcache, committed, view, pending, results, ip, src, err, obs>>
 
 (* Query._construct_sql_and_arguments: cache_entry = database._constructed_sql_cache.get(sql_key) *)
@@ -337,7 +362,7 @@ ScGet(t) ==
     /\ LET o == Cur(t)  sk == SqlKey(TKey(o.q, o.p), tr[t]) IN
        IF sk \in DOMAIN sqlcache
        THEN ExecOrm(t, sk, sqlcache[sk])
-       ELSE Goto(t, "scset") /\ UNCHANGED <<results, pending, obs, ip>>
+       ELSE Goto(t, "scset") /\ UNCHANGED <<results, pending, obs, ip, stp>>
     /\ UNCHANGED <<prog, warm, style, memo, tcache, sqlcache, adaptcache, committed, view, src, tr, err>>
 
 ScSet(t) ==
@@ -355,7 +380,7 @@ AdGet(t) ==
     /\ LET s == Cur(t).q IN
        IF AdKey(s) \in DOMAIN adaptcache
        THEN ExecRaw(t, adaptcache[AdKey(s)])
-       ELSE Goto(t, "adset") /\ UNCHANGED <<results, pending, obs, ip>>
+       ELSE Goto(t, "adset") /\ UNCHANGED <<results, pending, obs, ip, stp>>
     /\ UNCHANGED <<prog, warm, style, memo, tcache, sqlcache, adaptcache, committed, view, src, tr, err>>
 
 AdSet(t) ==
@@ -411,7 +436,12 @@ AllDone == \A t \in Threads : pc[t] = "done"
 (* Required behaviour *)
 NoSpuriousError == \A t \in Threads : err[t] = "none"
 
-RightTranslator == \A t \in Threads : pc[t] \in {"scget", "scset"} => tr[t].fixed = FixedOf(Cur(t).q, Cur(t).p)
+(* the translator in hand carries the current values: the one of the whole query when its SQL is constructed, the one of
+   the previous step while the next step of a chain is prepared (it will be copied) *)
+RightTranslator == \A t \in Threads :
+    /\ pc[t] \in {"scget", "scset"} => tr[t].fixed = FixedOf(Cur(t).q, Cur(t).p)
+    /\ (pc[t] \in {"srcget", "srcset", "extget", "extset", "tcget", "tcdel", "tcset"} /\ stp[t] > 1)
+          => tr[t] = Tr(Prefixes(Cur(t).q)[stp[t] - 1], Cur(t).p)
 
 Transparent == \A t \in Threads : \A i \in DOMAIN obs[t] :
                   (obs[t][i].op.op = "exec" /\ obs[t][i].got.k = "ans") => obs[t][i].got = obs[t][i].req
@@ -422,6 +452,7 @@ TypeOK == /\ \A t \in Threads : pc[t] \in {"srcget", "srcset", "extget", "extset
                                             "adget", "adset", "sess", "xuse", "done"}
           /\ \A t \in Threads : ip[t] \in 1 .. Len(prog[t]) + 1
           /\ \A t \in Threads : (pc[t] = "done") = (ip[t] = Len(prog[t]) + 1)
+          /\ \A t \in Threads : stp[t] \in 1 .. (IF pc[t] \in {"done", "sess", "xuse", "adget", "adset"} THEN 1 ELSE Steps(Cur(t).q))
           /\ \A k \in DOMAIN tcache : tcache[k].q \in OrmQueries
           /\ \A k \in DOMAIN sqlcache : sqlcache[k].q \in OrmQueries
 
